@@ -25,6 +25,7 @@ EXPLANATION = (
     "arms use the dialect's own factories and pass translated arguments in order; reduction is a left fold; (D5) "
     "natural keys split names on the capturing digit-group pattern, turn all-digit groups into integers with int() "
     "and leave the rest, and the revlex key is exactly the reversed natural key."
+    ' Round 5: (D5) natural keys are position-aligned (re.split with a capturing group, not groupby runs); no unsound cache.'
 )
 RULE_TEXT = "instances = registry arms, emitted (name, arity) pairs vs dialect entries, predicate/consumer position pairs, refusal points, key-construction obligations; exhaustive over the dispatch registry and the dialect table"
 ASSUMPTIONS = [
